@@ -113,10 +113,28 @@ pub(crate) fn remove_or_compress_too_old_logfiles_impl(
         log_limit = 1;
     }
 
-    for (index, file) in list_of_log_and_compressed_files(file_spec, infix_filter)
-        .into_iter()
-        .enumerate()
+    #[allow(unused_mut)]
+    let mut files = list_of_log_and_compressed_files(file_spec, infix_filter);
+
+    // An interrupted compression leaves an unfinished .gz next to its original;
+    // the original counts, the unfinished .gz is dropped (and written anew when it is due).
+    #[cfg(feature = "compress")]
     {
+        let unfinished: Vec<PathBuf> = files
+            .iter()
+            .filter(|f| {
+                f.extension().is_some_and(|extension| extension == "gz")
+                    && files.contains(&f.with_extension(""))
+            })
+            .cloned()
+            .collect();
+        for file in unfinished {
+            std::fs::remove_file(&file)?;
+            files.retain(|f| *f != file);
+        }
+    }
+
+    for (index, file) in files.into_iter().enumerate() {
         if index >= log_limit + compress_limit {
             // delete (log or log.gz)
             #[cfg(flexi_logger_verif)]
